@@ -39,7 +39,13 @@ Octi(mp) == \A x \in EdgeRecs(mp) :
                   /\ Abs(x.e[1][1]) <= ExactMax /\ Abs(x.e[1][2]) <= ExactMax
                   /\ Abs(x.e[2][1]) <= ExactMax /\ Abs(x.e[2][2]) <= ExactMax
 Bases(c) == BaseNames(meta[c.x].expr) \cup BaseNames(meta[c.y].expr)
-ExactCall(c) == \A n \in Bases(c) : Octi(val[n])
+\* operands that meet in common vertices only: no meeting point is ever computed, every output
+\* coordinate is an input coordinate
+TouchOnly(c) == LET E == UNION {Segs(EdgeRecs(val[n])) : n \in Bases(c)}
+                    Vin == UNION {{e[1], e[2]} : e \in E}
+                IN /\ \A e \in E : \A f \in E : ~ProperCross(e, f) /\ ~CollinearOverlap(e, f)
+                   /\ \A v \in Vin : \A e \in E : OnSeg(v, e) => (v = e[1] \/ v = e[2])
+ExactCall(c) == (\A n \in Bases(c) : Octi(val[n])) \/ TouchOnly(c)
 Depth1(c) == meta[c.x].expr[1] = "b" /\ meta[c.y].expr[1] = "b"
 Cls(n) == IF meta[n].rel = "rewrite" THEN meta[n].of ELSE n
 ExprOf(c) == <<"o", c.op, meta[c.x].expr, meta[c.y].expr>>
